@@ -38,6 +38,11 @@ BARRIER_OPS = {"wait", "reset", "abort"}
 
 
 MUTANTS = [
+    ("exported buffer views alive on the failure path", "AegeanTools/BANE.py",
+     "        irms = SharedMemory(name=f'irms_{memory_id}', create=True, size=nbytes)\n",
+     "        irms = SharedMemory(name=f'irms_{memory_id}', create=True, size=nbytes)\n"
+     "        bkg = np.frombuffer(ibkg.buf, dtype=np.float64)\n"
+     "        bkg.fill(np.nan)\n", "C07-R4"),
     ("barrier with a 30 s timeout", "AegeanTools/BANE.py",
      "        barrier = ctx.Barrier(parties=len(ymaxs))",
      "        barrier = ctx.Barrier(parties=len(ymaxs), timeout=30)",
@@ -748,6 +753,49 @@ def r4(ctx, parent):
                               "release" % nm_, node=st,
                               path=cfg.describe(p_) if p_ else None)
                     break
+    # exported buffer views: np.frombuffer / memoryview / the .buf object
+    # keep an export on the segment's mmap; close() raises BufferError while
+    # one is alive (np.ndarray(buffer=...) does not hold one)
+    for n, nm, s_ in created:
+        views = []
+        for vn, st in cfg.stmt.items():
+            if cfg.kind[vn] != "stmt" or not isinstance(st, ast.Assign) or \
+                    not isinstance(st.targets[0], ast.Name):
+                continue
+            v = st.value
+            exported = (isinstance(v, ast.Call) and
+                        norm(v.func).split(".")[-1] in ("frombuffer",
+                                                        "memoryview") and
+                        any(norm(x) == nm + ".buf" for a in v.args
+                            for x in ast.walk(a))) or \
+                norm(v) == nm + ".buf" or (
+                    isinstance(v, ast.Subscript) and
+                    norm(v.value) == nm + ".buf")
+            if exported:
+                views.append((vn, st.targets[0].id, st))
+        closes = [m for m, st in cfg.stmt.items() if cfg.kind[m] == "stmt"
+                  and any(isinstance(c, ast.Call) and
+                          norm(c.func) == nm + ".close"
+                          for c in ast.walk(st))]
+        for vn, vname, vst in views:
+            gone = {m for m, st in cfg.stmt.items() if cfg.kind[m] == "stmt"
+                    and m != vn and (
+                        (isinstance(st, ast.Assign) and any(
+                            isinstance(t, ast.Name) and t.id == vname
+                            for t in st.targets)) or
+                        (isinstance(st, ast.Delete) and any(
+                            norm(t) == vname for t in st.targets)))}
+            bad = None
+            for cn in closes:
+                bad = bad or cfg.path_avoiding(vn, cn, gone)
+            ctx.check("C07-R4", parent, "buffer view %s released before "
+                      "%s.close()" % (vname, nm), bad is None,
+                      "`%s` holds an exported buffer of segment '%s'; on a "
+                      "path to %s.close() (e.g. after a worker failure) it "
+                      "is still alive, so close() raises BufferError and "
+                      "neither segment is unlinked" %
+                      (norm(vst, 60), nm, nm), node=vst,
+                      path=cfg.describe(bad) if bad else None)
     # independence of releases
     if len(order) >= 2:
         first, second = order[0], order[1]
